@@ -1,0 +1,13 @@
+//go:build !verif
+// +build !verif
+
+package verifhook
+
+// Yield marks a point at which a simulator may switch to another task.
+func Yield(site string, keys ...interface{}) {}
+
+// Poll marks the idle branch of a busy loop.
+func Poll(site string) {}
+
+// Name gives obj a stable identity usable as a key of Yield.
+func Name(kind string, obj interface{}) {}
